@@ -109,8 +109,8 @@ func GenProdPlan(t *rapid.T, f ProdFocus) ProdPlan {
 	c.Manual = rapid.IntRange(0, 4).Draw(t, "manual") == 0
 	if f.SmallLimits {
 		c.MaxBufRecs = rapid.IntRange(1, 8).Draw(t, "maxbufrecs")
-		if rapid.Bool().Draw(t, "usebytes") {
-			c.MaxBufBytes = rapid.IntRange(16, 200).Draw(t, "maxbufbytes")
+		if rapid.Bool().Draw(t, "usebytes") || f.Burst {
+			c.MaxBufBytes = rapid.IntRange(16, 200).Draw(t, "maxbufbytes") // burst plans always have both limits
 		}
 	} else {
 		c.MaxBufRecs = rapid.SampledFrom([]int{0, 1, 2, 5, 64}).Draw(t, "maxbufrecs")
